@@ -563,10 +563,10 @@ Proof.
     + injection E1 as <-. split; assumption.
 Qed.
 
-Lemma include_go_leaf : forall src target repl target' repl',
-  leafx target = true -> leafx src = true -> include_go target repl src = DOk (target', repl') -> leafx target' = true.
+Lemma include_go_leaf : forall src target repl used target' used',
+  leafx target = true -> leafx src = true -> include_go target repl used src = DOk (target', used') -> leafx target' = true.
 Proof.
-  induction src as [|[n k] rest IH]; intros target repl target' repl' Ht Hs H.
+  induction src as [|[n k] rest IH]; intros target repl used target' used' Ht Hs H.
   - cbn in H. now injection H as <- <-.
   - cbn [include_go] in H. dinv H as [[n1 repl1] [E1 H]]. unfold leafx in Hs. cbn [forallb snd] in Hs.
     apply andb_true_iff in Hs as [Hk Hs]. eapply IH; [|exact Hs|exact H].
@@ -577,9 +577,9 @@ Lemma world_include_flat root pkgs w r items w' : wflat w -> world_include root 
 Proof.
   intros [Hf Hx] H. unfold world_include in H. dinv H as [repl [E1 H]]. dinv H as [it [E2 H]].
   assert (Hg : exists x other, get_world (w_types w) x = Some other /\
-            (do (imps, repl1) <- include_go (w_imp w) repl (w_imports other) ;;
-             do (exps, repl2) <- include_go (w_exp w) repl1 (w_exports other) ;;
-             if existsb (fun it => has (name_of (Ast.ii_from it)) repl2) items then DErr EMissingWorldInclude
+            (do (imps, used1) <- include_go (w_imp w) repl [] (w_imports other) ;;
+             do (exps, used2) <- include_go (w_exp w) repl used1 (w_exports other) ;;
+             if existsb (fun it => negb (mem (name_of (Ast.ii_from it)) used2)) items then DErr EMissingWorldInclude
              else DOk (mkwst (mkloc (l_cur (w_loc w)) (l_uses (w_loc w)) imps (w_types w)) exps)) = DOk w').
   { destruct it as [[r0|f|v|i|wd|m]|f|i|wd|m|v]; try discriminate;
       (destruct (get_world (w_types w) wd) as [other|] eqn:G; [|discriminate]); eauto. }
